@@ -16,7 +16,7 @@ IDX_FAR = [4095, 4096, 4097, 65535, 65536, 2**31 - 1, 2**32 - 2]
 LENS = [0, 1, 2, 3, 5, 8, 13, 20, 21, 4096, 4097, 65536, 2**31, 2**32 - 2, 2**32 - 1]
 CMP_FIELDS = ("r", "len", "lw", "ext", "keys")
 NEGZERO_SIG = "sort-comparator-negzero-treated-as-less"
-MQUICK = 1000
+MQUICK = 1400
 
 
 # ----------------------------------------------------------------------------- generators
@@ -583,15 +583,19 @@ def main(ctx):
 
     ctx.regen()
     ok, errs = ctx.lake_build(["GojaModel.C07.Props", "GojaModel.C07.PropsElem", "GojaModel.C07.PropsHist", "GojaModel.C07.Tie", "model_c07"])
-    if ok:
-        ctx.audit("GojaModel.C07.Props", expect_min=22)
-        ctx.audit("GojaModel.C07.PropsElem", expect_min=13)
-        ctx.audit("GojaModel.C07.PropsHist", expect_min=4)
-        ctx.audit("GojaModel.C07.Tie", expect_min=1)
-        if thorough:
-            ctx.leanchecker("GojaModel.C07.PropsHist")
+    # the audits (one `lean` run per module) and the harness build are independent: run them side by side
+    with ThreadPoolExecutor(max_workers=5) as ex:
+        futs = []
+        if ok:
+            for mod, n in (("GojaModel.C07.Props", 22), ("GojaModel.C07.PropsElem", 13), ("GojaModel.C07.PropsHist", 4), ("GojaModel.C07.Tie", 1)):
+                futs.append(ex.submit(ctx.audit, mod, n))
+        hf = ex.submit(ctx.go_build)
+        for f in futs:
+            f.result()
+        env.harness = hf.result()
+    if ok and thorough:
+        ctx.leanchecker("GojaModel.C07.PropsHist")
     env.model = ctx.model_exe() if ok and os.path.exists(ctx.model_exe()) else None
-    env.harness = ctx.go_build()
     if env.harness is None:
         return ctx.finish(level="proof", rule="harness did not build")
 
@@ -609,7 +613,7 @@ def main(ctx):
             check_sort(ctx, env, [e["case"]])
         elif e.get("type") == "meth":
             corpus_meth.append(e["case"])
-    nseq = 2500 if thorough else 150
+    nseq = 2500 if thorough else 160
     for k in range(nseq):
         ops = gen_seq(rng, allow_fill=(k % 4 == 0))
         seqs.append(("g%d" % k, twins(rng, ops)))
@@ -647,7 +651,7 @@ def main(ctx):
         ctx.sample(seq_line(s[1]["orig"])[:300])
 
     # 2. sort
-    sort_cases = gen_sort_cases(rng, 4000 if thorough else 400)
+    sort_cases = gen_sort_cases(rng, 4000 if thorough else 500)
     sort_cases.insert(0, {"recv": "dense", "method": "sort", "cmp": "desc-negate", "elems": [[1, 0], [1, 1], [1, 2], [0, 3]], "mutate": "", "seed": 0})
     sagree = check_sort(ctx, env, sort_cases)
     ctx.log("sort sweep done")
